@@ -159,6 +159,37 @@ pub struct Misc {
     tail: Vec<String>,
 }
 
+#[derive(Subcommand, Clone, Debug, PartialEq)]
+pub enum Leaf {
+    Alpha,
+    Beta {
+        #[arg(long)]
+        k: Option<u8>,
+    },
+}
+
+#[derive(Subcommand, Clone, Debug, PartialEq)]
+pub enum Mid {
+    Go {
+        #[arg(long)]
+        n: Option<u8>,
+        #[command(subcommand)]
+        deep: Option<Leaf>,
+    },
+    #[command(subcommand)]
+    Svc(Leaf),
+    Halt,
+}
+
+#[derive(Parser, Clone, Debug, PartialEq)]
+#[command(name = "nest")]
+pub struct Nest {
+    #[arg(long)]
+    tag: Option<String>,
+    #[command(subcommand)]
+    cmd: Option<Mid>,
+}
+
 // ------------------------------------------------------------------------------------------
 // scenario data
 
@@ -727,6 +758,139 @@ fn misc_tokens(v: &Misc, which: &dyn Fn(&str) -> bool) -> (Vec<String>, Vec<(Str
     (a, named)
 }
 
+fn leaf_fields(prefix: &str, l: &Leaf, v: &mut Vec<(String, String)>) {
+    match l {
+        Leaf::Alpha => v.push((format!("{prefix}.variant"), "alpha".into())),
+        Leaf::Beta { k } => {
+            v.push((format!("{prefix}.variant"), "beta".into()));
+            v.push((format!("{prefix}.beta.k"), format!("{k:?}")));
+        }
+    }
+}
+
+fn leaf_from(m: &ArgMatches) -> Result<Option<Leaf>, String> {
+    Ok(match m.subcommand() {
+        None => None,
+        Some(("alpha", _)) => Some(Leaf::Alpha),
+        Some(("beta", sm)) => Some(Leaf::Beta { k: one::<u8>(sm, "k")? }),
+        Some((o, _)) => return Err(format!("unknown leaf {o}")),
+    })
+}
+
+impl Mirror for Nest {
+    fn fields(&self) -> Vec<(String, String)> {
+        let mut v = vec![("tag".into(), format!("{:?}", self.tag))];
+        match &self.cmd {
+            None => v.push(("cmd.variant".into(), "none".into())),
+            Some(Mid::Go { n, deep }) => {
+                v.push(("cmd.variant".into(), "go".into()));
+                v.push(("cmd.go.n".into(), format!("{n:?}")));
+                match deep {
+                    None => v.push(("cmd.go.deep.variant".into(), "none".into())),
+                    Some(l) => leaf_fields("cmd.go.deep", l, &mut v),
+                }
+            }
+            Some(Mid::Svc(l)) => {
+                v.push(("cmd.variant".into(), "svc".into()));
+                leaf_fields("cmd.svc", l, &mut v);
+            }
+            Some(Mid::Halt) => v.push(("cmd.variant".into(), "halt".into())),
+        }
+        v
+    }
+    fn defaulted_paths() -> &'static [&'static str] {
+        &[]
+    }
+    fn from_matches(m: &ArgMatches) -> Result<Self, String> {
+        let cmd = match m.subcommand() {
+            None => None,
+            Some(("go", sm)) => Some(Mid::Go { n: one::<u8>(sm, "n")?, deep: leaf_from(sm)? }),
+            Some(("svc", sm)) => Some(Mid::Svc(leaf_from(sm)?.ok_or("svc without leaf")?)),
+            Some(("halt", _)) => Some(Mid::Halt),
+            Some((o, _)) => return Err(format!("unknown subcommand {o}")),
+        };
+        Ok(Nest { tag: one::<String>(m, "tag")?, cmd })
+    }
+}
+
+fn gen_leaf(rng: &mut Rng) -> Leaf {
+    if rng.coin() {
+        Leaf::Alpha
+    } else {
+        Leaf::Beta { k: if rng.coin() { Some(rng.below(256) as u8) } else { None } }
+    }
+}
+
+fn gen_nest(rng: &mut Rng) -> Nest {
+    Nest {
+        tag: if rng.coin() { Some(pick_str(rng)) } else { None },
+        cmd: match rng.below(5) {
+            0 => None,
+            1 | 2 => Some(Mid::Go { n: if rng.coin() { Some(rng.below(256) as u8) } else { None }, deep: if rng.coin() { Some(gen_leaf(rng)) } else { None } }),
+            3 => Some(Mid::Svc(gen_leaf(rng))),
+            _ => Some(Mid::Halt),
+        },
+    }
+}
+
+fn leaf_tokens(prefix: &str, l: &Leaf, a: &mut Vec<String>, named: &mut Vec<(String, String)>) {
+    match l {
+        Leaf::Alpha => {
+            a.push("alpha".into());
+            named.push((format!("{prefix}.variant"), "alpha".into()));
+        }
+        Leaf::Beta { k } => {
+            a.push("beta".into());
+            named.push((format!("{prefix}.variant"), "beta".into()));
+            if let Some(x) = k {
+                a.push(format!("--k={x}"));
+                named.push((format!("{prefix}.beta.k"), format!("{k:?}")));
+            }
+        }
+    }
+}
+
+/// `with_deep`: whether the nested optional subcommand of `go` is named (leaving it out while the aged
+/// value has none makes the in-place update fail in the extraction phase)
+fn nest_tokens(v: &Nest, top: bool, sub: bool, with_deep: bool) -> (Vec<String>, Vec<(String, String)>) {
+    let mut a = Vec::new();
+    let mut named = Vec::new();
+    if top {
+        if let Some(t) = &v.tag {
+            a.push(format!("--tag={t}"));
+            named.push(("tag".to_string(), format!("{:?}", v.tag)));
+        }
+    }
+    if sub {
+        match &v.cmd {
+            None => {}
+            Some(Mid::Go { n, deep }) => {
+                a.push("go".into());
+                named.push(("cmd.variant".to_string(), "go".into()));
+                if let Some(x) = n {
+                    a.push(format!("--n={x}"));
+                    named.push(("cmd.go.n".to_string(), format!("{n:?}")));
+                }
+                if with_deep {
+                    if let Some(l) = deep {
+                        leaf_tokens("cmd.go.deep", l, &mut a, &mut named);
+                    }
+                }
+            }
+            Some(Mid::Svc(l)) => {
+                a.push("svc".into());
+                named.push(("cmd.variant".to_string(), "svc".into()));
+                leaf_tokens("cmd.svc", l, &mut a, &mut named);
+            }
+            Some(Mid::Halt) => {
+                a.push("halt".into());
+                named.push(("cmd.variant".to_string(), "halt".into()));
+            }
+        }
+    }
+    (a, named)
+}
+
 // ------------------------------------------------------------------------------------------
 
 fn with0(name: &str, mut v: Vec<String>) -> Vec<String> {
@@ -768,6 +932,23 @@ fn gen_ops<T: Mirror>(rng: &mut Rng, ty: u8) -> (Vec<String>, Vec<DOp>) {
                 Box::new(|rng: &mut Rng| {
                     let v = gen_tree_val(rng);
                     (tree_tokens(&v, true, true).0, format!("{v:?}"))
+                }),
+            )
+        }
+        4 => {
+            let v = gen_nest(rng);
+            (
+                nest_tokens(&v, true, true, true).0,
+                Box::new(|rng: &mut Rng| {
+                    let v = gen_nest(rng);
+                    let top = rng.coin();
+                    let sub = rng.chance(2, 3);
+                    let with_deep = rng.chance(2, 3);
+                    nest_tokens(&v, top, sub, with_deep)
+                }),
+                Box::new(|rng: &mut Rng| {
+                    let v = gen_nest(rng);
+                    (nest_tokens(&v, true, true, true).0, format!("{v:?}"))
                 }),
             )
         }
@@ -854,11 +1035,11 @@ impl Engine for DeriveSim {
         Meta {
             engine: "derivesim",
             level: "exploration",
-            rule: "a scenario is one of four derived corpus types (Misc: rename_all, explicit id/short/long, default_missing_value, Option<flatten>, required positional, `last` positional Vec; Flat: bool, counter, T, Option<T>, Option<Option<T>>, Vec<T>, Option<Vec<T>>, default_value_t, value_delimiter, ValueEnum with rename/aliases/skip, positional, skip; Tree: global, flatten, required subcommand enum with struct/tuple/unit/nested/external variants, alias; OptSub: multi-value Vec<T> (num_args 1..), Option<Vec<T>> with num_args 0.. (Some(empty)), optional subcommand, trailing positional Vec; Vec<Vec<T>> needs the unstable-v5 feature and is not part of the default surface) plus an initial value and a history of 1-8 operations on ONE value: try_update_from naming a seed-chosen subset of fields (incl. subcommand switches and nested fields), failing updates (parse-phase and extraction-phase faults), parse-equivalence checks, round-trips of generated values, value-enum probes. Non-trivial = >= 2 operations with >= 1 comparison; distinct = distinct scenario hash",
+            rule: "a scenario is one of five derived corpus types (Nest: optional subcommand enum whose variants hold a further optional subcommand, a nested subcommand container variant and a unit variant; Misc: rename_all, explicit id/short/long, default_missing_value, Option<flatten>, required positional, `last` positional Vec; Flat: bool, counter, T, Option<T>, Option<Option<T>>, Vec<T>, Option<Vec<T>>, default_value_t, value_delimiter, ValueEnum with rename/aliases/skip, positional, skip; Tree: global, flatten, required subcommand enum with struct/tuple/unit/nested/external variants, alias; OptSub: multi-value Vec<T> (num_args 1..), Option<Vec<T>> with num_args 0.. (Some(empty)), optional subcommand, trailing positional Vec; Vec<Vec<T>> needs the unstable-v5 feature and is not part of the default surface) plus an initial value and a history of 1-8 operations on ONE value: try_update_from naming a seed-chosen subset of fields (incl. subcommand switches and nested fields), failing updates (parse-phase and extraction-phase faults), parse-equivalence checks, round-trips of generated values, value-enum probes. Non-trivial = >= 2 operations with >= 1 comparison; distinct = distinct scenario hash",
             real_components: &["clap_derive (Parser, Args, Subcommand, ValueEnum) compiled from /repo", "clap_builder::derive (try_parse_from, try_update_from)", "the builder parser behind them"],
             stub_components: &["hand-written mirrors: value generators, canonical printers, field extraction against the builder API"],
             workload_only_clauses: &["parse-equivalence, field extraction per type shape and round-trip have no history in them; they are evaluated inside the update histories because the update oracle needs them"],
-            assumptions: &["the corpus is fixed (four types spanning the type-shape x attribute matrix); other derive inputs are not covered", "no assertion is made on the value left behind by a FAILED update (the statement is silent)", "if /repo's derive no longer compiles the corpus the check exits 2 (cannot decide)"],
+            assumptions: &["the corpus is fixed (five types spanning the type-shape x attribute matrix); other derive inputs are not covered", "no assertion is made on the value left behind by a FAILED update (the statement is silent)", "if /repo's derive no longer compiles the corpus the check exits 2 (cannot decide)"],
             abort_is_violation: false,
         }
     }
@@ -872,21 +1053,23 @@ impl Engine for DeriveSim {
         512
     }
     fn gen(&self, rng: &mut Rng, _tier: Tier) -> DeriveSc {
-        let ty = rng.below(4) as u8;
+        let ty = rng.below(5) as u8;
         let (init_argv, ops) = match ty {
             0 => gen_ops::<Flat>(rng, 0),
             1 => gen_ops::<Tree>(rng, 1),
             3 => gen_ops::<Misc>(rng, 3),
+            4 => gen_ops::<Nest>(rng, 4),
             _ => gen_ops::<OptSub>(rng, 2),
         };
         DeriveSc { ty, init_argv, ops }
     }
     fn exec(&self, sc: &DeriveSc, log: &mut Log) -> Outcome {
         let mut out = Outcome::default();
-        let r = catch(|| match sc.ty % 4 {
+        let r = catch(|| match sc.ty % 5 {
             0 => exec_ty::<Flat>("flat", sc, log, &mut out),
             1 => exec_ty::<Tree>("tree", sc, log, &mut out),
             3 => exec_ty::<Misc>("misc", sc, log, &mut out),
+            4 => exec_ty::<Nest>("nest", sc, log, &mut out),
             _ => exec_ty::<OptSub>("optsub", sc, log, &mut out),
         });
         if let Err(p) = r {
@@ -950,6 +1133,28 @@ fn exec_ty<T: Mirror>(name: &str, sc: &DeriveSc, log: &mut Log, out: &mut Outcom
                         out.count_dyn(format!("op.update_err_{:?}", e.kind()));
                         ev!(log, "{i} update {:?} -> Err({:?})", argv, e.kind());
                         let _ = snapshot;
+                        if !*injected_fault {
+                            // a FAILED update may have applied some of the named assignments, but no field may end up
+                            // with a value that is neither its old one nor the one the tokens name
+                            let after = aged.fields();
+                            out.comparisons += 1;
+                            for (p, b) in &before {
+                                let now = after.iter().find(|(q, _)| q == p).map(|(_, a)| a.clone());
+                                let named_new = named.iter().find(|(n, _)| n == p).map(|(_, x)| x.clone());
+                                let parent_switched = named.iter().any(|(n, x)| n.ends_with(".variant") && p.starts_with(n.trim_end_matches("variant")) && before.iter().any(|(q, old)| q == n && old != x));
+                                let ok = match &now {
+                                    Some(a) => a == b || Some(a.clone()) == named_new,
+                                    None => parent_switched || named.iter().any(|(n, _)| n.ends_with(".variant") && p.starts_with(n.trim_end_matches("variant"))),
+                                };
+                                if !ok {
+                                    let site = if T::defaulted_paths().contains(&p.as_str()) { "field-with-default" } else { "failed-update-corrupts-field" };
+                                    out.violate("untouched-field-changed", site, format!("op {i}: FAILED update {:?} ({:?}): field {p} went from {b} to {:?}, which is neither its old value nor the value the tokens name", argv, e.kind(), now));
+                                    if site != "field-with-default" {
+                                        return;
+                                    }
+                                }
+                            }
+                        }
                     }
                     Ok(()) if *injected_fault => {
                         out.count("misc.injected_fault_did_not_fail");
